@@ -193,29 +193,6 @@ def inline_aliases_in(fn: ast.AST, unknown: Set[str]) -> int:
     return done
 
 
-def inline_aliases(tree: ast.Module, modname: str) -> int:
-    table = localsig.load_table().get(modname)
-    if not table:
-        return 0
-    from .inline import known_funcs
-    known = set(known_funcs().get(modname, []))
-    n = 0
-    for q, fn in localsig.top_functions(tree):
-        ref = table.get(q)
-        if ref is None:
-            if q not in known:
-                continue
-            ref = {}  # a known function without locals in the reference tree
-        sigs = localsig.signatures(fn)
-        unknown = {nm for nm, key in sigs.items() if key not in ref and nm not in ref.values()}
-        n += inline_aliases_in(fn, unknown)
-        n += loops_to_comprehensions(fn, unknown)
-        n += worklist_to_recursion(fn, unknown)
-    if n:
-        ast.fix_missing_locations(tree)
-    return n
-
-
 # --------------------------------------------------------------------------- append loops over a new list
 def _is_empty_list(e: ast.AST) -> bool:
     return (isinstance(e, ast.List) and not e.elts) or (isinstance(e, ast.Call) and isinstance(e.func, ast.Name) and e.func.id == "list" and not e.args and not e.keywords)
@@ -341,3 +318,39 @@ def worklist_to_recursion(fn: ast.AST, unknown: Set[str]) -> int:
     fn.body = doc + new
     ast.fix_missing_locations(fn)
     return 1
+
+
+def unknown_locals(tree: ast.Module, modname: str) -> Dict[str, Set[str]]:
+    """per top-level function / method: the locals whose defining signature the reference tree does not know. Computed before
+    the surface normalisation drops annotation-only statements (they are part of the signatures)."""
+    table = localsig.load_table().get(modname)
+    if not table:
+        return {}
+    from .inline import known_funcs
+    known = set(known_funcs().get(modname, []))
+    out: Dict[str, Set[str]] = {}
+    for q, fn in localsig.top_functions(tree):
+        ref = table.get(q)
+        if ref is None:
+            if q not in known:
+                continue
+            ref = {}  # a known function without locals in the reference tree
+        sigs = localsig.signatures(fn)
+        out[q] = {nm for nm, key in sigs.items() if key not in ref and nm not in ref.values()}
+    return out
+
+
+def inline_aliases(tree: ast.Module, modname: str, unknown_map: Optional[Dict[str, Set[str]]] = None) -> int:
+    if unknown_map is None:
+        unknown_map = unknown_locals(tree, modname)
+    n = 0
+    for q, fn in localsig.top_functions(tree):
+        unknown = unknown_map.get(q)
+        if not unknown:
+            continue
+        n += inline_aliases_in(fn, unknown)
+        n += loops_to_comprehensions(fn, unknown)
+        n += worklist_to_recursion(fn, unknown)
+    if n:
+        ast.fix_missing_locations(tree)
+    return n
